@@ -236,6 +236,33 @@ def run(tier, seed):
                            % (prog, direction, cx.tolist(), got[1][0].tolist(), got[1][1].tolist(), ref[0].tolist(), ref[1].tolist()),
                            {"search": "prog-context", "prog": prog, "direction": direction, "context": cx.tolist()})
                 break
+    # the composite is what it was given at construction: the caller's list may grow, shrink or be reordered afterwards
+    from nflows.transforms import base as bb_
+    for mut in ("append", "reverse", "pop", "replace"):
+        parts = [Tag(1), Rev(), Tag(3)]
+        comp = bb_.CompositeTransform(parts)
+        nested = bb_.CompositeTransform([bb_.InverseTransform(comp), Tag(2)])
+        if mut == "append":
+            parts.append(Tag(5))
+        elif mut == "reverse":
+            parts.reverse()
+        elif mut == "pop":
+            parts.pop()
+        else:
+            parts[0] = Tag(4)
+        prog0 = ("comp", [("leaf", 1), ("rev",), ("leaf", 3)])
+        xm0 = torch.tensor([[1.0, 2.0, 3.0, 5.0], [-4.0, 0.0, 7.0, 8.0]], dtype=torch.float64)
+        ck.case(("list-mutated", mut), nontrivial=True)
+        for what, tr, prog_ in (("composite", comp, prog0), ("Composite(Inverse(composite), leaf)", nested, ("comp", [("inv", prog0), ("leaf", 2)]))):
+            for direction in ("forward", "inverse"):
+                got = attempt(tr.forward if direction == "forward" else tr.inverse, xm0)
+                ref = (reference if direction == "forward" else reference_inv)(prog_, xm0)
+                if got[0] != "ok" or not torch.equal(got[1][0], ref[0]) or not torch.equal(got[1][1], ref[1]):
+                    ck.finding("wrappers:not-function-composition:caller-list-mutated",
+                               "%s built from a list of three parts; after the caller's list was changed (%s) its %s gives %s, the three parts it was given give %s"
+                               % (what, mut, direction, got[1][0].tolist() if got[0] == "ok" else got[1:], ref[0].tolist()),
+                               {"search": "list-mutated", "mutation": mut, "direction": direction})
+                    break
     # mode switches: after w.train() / w.eval() - whatever modes the parts and the wrapper were in before - every part is in that
     # mode, so the wrapper is the composition of its parts in that mode (batch statistics in training mode, running ones otherwise)
     import copy as copy_
